@@ -83,6 +83,12 @@ NEEDS = {
  'C11-F': ('connect() tests self.io before taking the lock', 'two callers run into connect() of an unconnected client at once', 'strengthened: fresh-connect scenario (real connect() over a fake AsynConn) added to C11_races'),
  'C16-E': ('wait_before sleep and garbage flush moved out of the communicator lock', 'caller B flushes while caller A waits for the rest of its reply', 'caught at once by C16_races'),
  'C16-F': ('reconnect time stamp set after the attempt', 'two callers arrive while disconnected and the interval has elapsed; the first attempt is refused', 'strengthened: reconnect race scenario added to C16_races'),
+ 'C09-E': ('datatype copy skipped for datatypes without properties of their own', 'a tuple/struct parameter with $ units and two modules with different main units, or a run-time change of a member limit', 'strengthened: container parameters with main-unit members, a configured main unit and member mutations added to the catalogue'),
+ 'C09-F': ('feature list cached per class (found through inheritance)', 'a module of the base class created before the first module of a subclass adding a Feature mixin', 'strengthened: feature-mixin hierarchy added'),
+ 'C12-E': ('client memoises identifier resolution without the action', 'bare module shorthand used in a changed message and in an update on one connection', 'strengthened: shorthand update of the main value added to the message alphabet'),
+ 'C12-F': ('IntRange converts through a float', 'integers beyond 2**53', 'caught at once (end-to-end pbig)'),
+ 'C19-E': ('identity-fits test on the raw byte length', 'equipment id with characters needing a JSON escape, within 5 bytes of the limit', 'caught at once'),
+ 'C19-F': ('receive buffer enlarged to 64k', 'a datagram nested deeper than the recursion limit (longer than the old buffer)', 'strengthened: datagrams longer than the receive buffer (deep nesting) added'),
 }
 
 
